@@ -207,9 +207,11 @@ def Flt.sigmoidFuel (fuel : Nat) (x : Flt) : Option Flt :=
   else if x.isZero then some (one.scale (-1) .zero)
   else if x.isNan then some x
   else
-    match x.expFuel fuel with
+    -- `e^x / (e^x + 1)` with 8 guard bits, rounded once
+    let sem := x.sem.increasePrecision 8
+    match (x.cast sem).expFuel fuel with
     | none => none
-    | some ex => if ex.isInf then some one else some (ex.div (ex.add one))
+    | some ex => if ex.isInf then some one else some ((ex.div (ex.add (Flt.one sem false))).cast x.sem)
 
 /-! ### functions.rs: pow -/
 
